@@ -160,6 +160,17 @@ Theorem ward_cost_monotone : forall d (A B : list vec), A <> [] -> wss d A <= ws
 Proof. exact wss_monotone. Qed.
 Print Assumptions ward_cost_monotone.
 
+(* (H2') translation invariance: translating every row by t leaves the merged
+   within-cluster SS (= the Ward cost, by H1) unchanged.  This is why the
+   centring `feature = feature - feature.mean(0)` of /repo 0ed383f changes no
+   exact value - the Gallina model (over Q) needs no centring step - while it
+   removes the cancellation of q - s^2/n in floating point. *)
+Theorem ward_cost_translation_invariant : forall d (t : vec) (xs : list vec),
+  wss d (map (vshift d t) xs) == wss d xs /\
+  forall x j, (j < d)%nat -> nth j (vshift d t x) 0 = nth j x 0 + nth j t 0.
+Proof. intros d t xs. split; [apply wss_shift|intros x j H; now apply vshift_nth]. Qed.
+Print Assumptions ward_cost_translation_invariant.
+
 (* (H3) soundness of the certificate checkers that the harness evaluates (inside
    Coq) on every (parents, height) the implementation returns.
    dendro_check certifies ProperDendrogram: a forest with parents after
